@@ -26,16 +26,16 @@ func knownFindingCases() map[string]initCase {
 	pt.NalRefIdc = 3
 	pps, _ := nalgen.SerializeAVCPPS(&pt, 1)
 	return map[string]initCase{
-		"mediaheader-from-mediatype-string": one(trackOp{Timescale: 48000, MediaType: "soun", Lang: "und", Codec: "aac", AACObjType: 2, AACFreq: 48000}),
-		"stpp-handler-type":                 one(trackOp{Timescale: 1000, MediaType: "stpp", Lang: "und", Codec: "stpp", StppNS: "http://www.w3.org/ns/ttml"}),
-		"wvtt-data-reference-index-0":       one(trackOp{Timescale: 1000, MediaType: "wvtt", Lang: "und", Codec: "wvtt", VttConfig: "WEBVTT"}),
-		"aac-samplerate-over-65535":         one(trackOp{Timescale: 96000, MediaType: "audio", Lang: "und", Codec: "aac", AACObjType: 2, AACFreq: 96000}),
-		"dec3-numindsub-not-decoded": one(trackOp{Timescale: 48000, MediaType: "audio", Lang: "und", Codec: "ec3",
-			Dec3: &dec3Fields{DataRate: 448, NumIndSub: 1, Subs: []ec3Sub{{BSID: 16, ACMod: 2}, {BSID: 16, ACMod: 2}}}}),
-		"ec3-fscod3-panic": one(trackOp{Timescale: 24000, MediaType: "audio", Lang: "und", Codec: "ec3",
-			Dec3: &dec3Fields{DataRate: 96, Subs: []ec3Sub{{FSCod: 3, BSID: 16, ACMod: 2}}}}),
-		"avcc-chroma-not-inferred-on-decode": one(trackOp{Timescale: 90000, MediaType: "video", Lang: "und", Codec: "avc", SampleEntry: "avc1", IncludePS: true,
-			SPS: []harness.HexBytes{sps}, PPS: []harness.HexBytes{pps}, Width: 16, Height: 16, Chroma: 1}),
+		"mediaheader-from-mediatype-string": one(trackOp{Timescale: 48000, MediaType: "soun", Lang: "und", descSpec: descSpec{Codec: "aac", AACObjType: 2, AACFreq: 48000}}),
+		"stpp-handler-type":                 one(trackOp{Timescale: 1000, MediaType: "stpp", Lang: "und", descSpec: descSpec{Codec: "stpp", StppNS: "http://www.w3.org/ns/ttml"}}),
+		"wvtt-data-reference-index-0":       one(trackOp{Timescale: 1000, MediaType: "wvtt", Lang: "und", descSpec: descSpec{Codec: "wvtt", VttConfig: "WEBVTT"}}),
+		"aac-samplerate-over-65535":         one(trackOp{Timescale: 96000, MediaType: "audio", Lang: "und", descSpec: descSpec{Codec: "aac", AACObjType: 2, AACFreq: 96000}}),
+		"dec3-numindsub-not-decoded": one(trackOp{Timescale: 48000, MediaType: "audio", Lang: "und", descSpec: descSpec{Codec: "ec3",
+			Dec3: &dec3Fields{DataRate: 448, NumIndSub: 1, Subs: []ec3Sub{{BSID: 16, ACMod: 2}, {BSID: 16, ACMod: 2}}}}}),
+		"ec3-fscod3-panic": one(trackOp{Timescale: 24000, MediaType: "audio", Lang: "und", descSpec: descSpec{Codec: "ec3",
+			Dec3: &dec3Fields{DataRate: 96, Subs: []ec3Sub{{FSCod: 3, BSID: 16, ACMod: 2}}}}}),
+		"avcc-chroma-not-inferred-on-decode": one(trackOp{Timescale: 90000, MediaType: "video", Lang: "und", descSpec: descSpec{Codec: "avc", SampleEntry: "avc1", IncludePS: true,
+			SPS: []harness.HexBytes{sps}, PPS: []harness.HexBytes{pps}, Width: 16, Height: 16, Chroma: 1}}),
 	}
 }
 
